@@ -465,7 +465,7 @@ def gen_c12(seed, tier):
              P.gen_bucket_programs(r, N(tier, 10, 100)) + P.gen_bucket_shape_programs() +
              [p for p in P.gen_hostile_state_programs(r, N(tier, 9, 18)) if p.name.startswith("foreign")] +
              P.gen_size_matrix(G.Rng(seed + 121)) +    # every declared-size relation x chunk shape, deterministically
-             P.gen_stray_root_programs())
+             P.gen_stray_root_programs() + P.gen_unset_option_programs() + P.gen_async_protocol_programs())
     # sync-only entry points have no async twin: drop them from the comparison programs
     for p in progs:
         p.ops = [o for o in p.ops if o.split(" ")[0] not in P.SYNC_ONLY and not o.startswith("dump")]
